@@ -15,6 +15,39 @@ fn main() {
         }
         return;
     }
+    if args.len() >= 2 && args[1] == "--fuzz-targets" {
+        for t in gse_verif::fuzz::fuzzable_targets() {
+            println!("{}", t);
+        }
+        return;
+    }
+    if args.len() >= 5 && args[1] == "--fuzz-one" {
+        // vcheck --fuzz-one <ID> <part> <file>: run one libFuzzer input through the part (no fuzzer needed)
+        gse_verif::fuzz::init(&args[2]);
+        let data = std::fs::read(&args[4]).expect("read input");
+        match gse_verif::fuzz::fuzz_one(&args[2], &args[3], &data) {
+            Ok(()) => println!("held"),
+            Err(m) => {
+                println!("FUZZ-VIOLATION {}", m);
+                std::process::exit(1);
+            }
+        }
+        return;
+    }
+    if args.len() >= 6 && args[1] == "--seed-corpus" {
+        // vcheck --seed-corpus <ID> <part> <dir> <n>
+        let seed: u64 = std::env::var("VERIF_SEED").ok().and_then(|s| s.trim().parse::<i64>().ok()).map(|v| v as u64).unwrap_or(0);
+        match gse_verif::fuzz::write_seed_corpus(&args[2], &args[3], &args[4], args[5].parse().unwrap_or(16), seed) {
+            Ok(n) => {
+                println!("{} seeds written to {}", n, args[4]);
+                return;
+            }
+            Err(e) => {
+                eprintln!("{}", e);
+                std::process::exit(2);
+            }
+        }
+    }
     if args.len() < 3 {
         usage();
     }
